@@ -10,7 +10,7 @@ from harness.programs import run_program
 
 PID = 'C07'
 LEVEL = 'exploration'
-RULE = ('(1) Exhaustive: for each stream-carrying model (request-response, stream, channel) x role of the real endpoint '
+RULE = ('(1) Exhaustive: for each stream-carrying model (request-response, stream, channel, channel on which the real endpoint has no publisher) x role of the real endpoint '
         '(requester / responder) x endpoint kind (client / server), every sequence up to length L over the alphabet '
         '{protocol-legal peer frames from a harness-scripted raw peer: PAYLOAD(next), PAYLOAD(next|complete), '
         'PAYLOAD(complete), ERROR, ERROR with data that is not UTF-8 text, REQUEST_N, CANCEL where the peer\'s role has it} + {local actions: request(n), cancel, '
@@ -21,7 +21,8 @@ RULE = ('(1) Exhaustive: for each stream-carrying model (request-response, strea
         'elements, then at most one terminal signal (on_complete | on_error | element flagged complete) and nothing '
         'after it; every request-response awaitable has exactly one outcome and no second resolution was attempted (no '
         'InvalidStateError in the loop handler or as an ERROR frame); after a connection event or a terminal frame the '
-        'awaitable is done. (3) The C17 reconnect histories: every request-response awaitable of the run has exactly one '
+        'awaitable is done (for subscribers the statement says at most one terminal signal: a subscriber left without one is '
+        'C11\'s matter, not judged here). (3) The C17 reconnect histories: every request-response awaitable of the run has exactly one '
         'outcome at the end, whichever connection it was issued on or between. Non-trivial = the sequence has a terminal event followed by a further event on that '
         'stream; distinct = distinct sequence / program hash.')
 ASSUMPTIONS = ['raw peer frames are encoded with the reference codec', 'recording subscribers never act after a terminal signal']
@@ -32,6 +33,12 @@ OTHER = {'c': 's', 's': 'c'}
 def alphabet(k, role):
     """(symbols, is_peer_terminal, is_conn) for the real endpoint in `role`."""
     conn = [('x', 'eof'), ('x', 'error'), ('x', 'close')]
+    if k == 'chn':
+        # a channel on which the real endpoint has no publisher of its own (request_channel(payload) without a publisher: the
+        # request frame carries COMPLETE; a handler returning (None, subscriber)): only the inbound direction lives
+        inbound = 'resp' if role == 'requester' else 'req'
+        return [('p', 'next'), ('p', 'next_complete'), ('p', 'complete'), ('p', 'error'), ('p', 'request_n'), ('p', 'cancel'),
+                ('l', 'req', inbound), ('l', 'cancel', inbound)] + conn
     if role == 'requester':
         if k == 'rr':
             return [('p', 'next_complete'), ('p', 'error'), ('p', 'error_bin'), ('l', 'cancel', 'resp')] + conn
@@ -87,6 +94,9 @@ def legal_sequences(k, role, depth):
 def build(real, k, role, seq, msg=False, frag=None, tight=False):
     raw = OTHER[real]
     req_side = real if role == 'requester' else raw
+    nopub = k == 'chn'
+    if nopub:
+        k = 'ch'
     spec = {'k': k, 'side': req_side, 'req': [3, 0]}
     if k == 'rr':
         spec['resp'] = {'mode': 'manual', 'p': [5, 0]}
@@ -96,6 +106,8 @@ def build(real, k, role, seq, msg=False, frag=None, tight=False):
     if k == 'ch':
         spec['rsrc'] = {'kind': 'manual', 'els': [[4, 0]] * 4, 'end': 'sep'}
         spec['rsub'] = {'n0': 2, 'refill': 0}
+    if nopub:
+        spec['rsrc' if role == 'requester' else 'src'] = None
     ops = [['start'], ['tick', 3]]
     if tight:
         # no loop iteration between consecutive symbols: a peer frame is fed to the endpoint's reader and the next
@@ -306,10 +318,12 @@ def run(tier, seed):
     depth = 3 if tier == 'quick' else 5
     jobs = [('hyp_shard', dict(tier=tier, seed=0, n=None))]
     for real in ('c', 's'):
-        for k in ('rr', 'st', 'ch'):
+        for k in ('rr', 'st', 'ch', 'chn'):
             for role in ('requester', 'responder'):
-                d = depth + (1 if k != 'ch' else 0)
-                parts = 1 if tier == 'quick' and k != 'ch' else (4 if tier == 'quick' else (32 if k == 'ch' else 4))
+                d = depth + (1 if k not in ('ch', 'chn') else 0)
+                if k == 'chn':
+                    d += 1  # (a smaller alphabet: one symbol deeper for the same cost)
+                parts = 1 if tier == 'quick' and k not in ('ch', 'chn') else (4 if tier == 'quick' else (32 if k in ('ch', 'chn') else 4))
                 for part in range(parts):
                     jobs.append(('enum_shard', dict(tier=tier, seed=seed, real=real, k=k, role=role, depth=d, part=part,
                                                     parts=parts)))
@@ -330,7 +344,12 @@ def replay(path):
     common.use_repo()
     case = common.load_replay(path)
     if 'enum' in case:
-        return common.report_replay(PID, path, monitors.mon_terminal_once(run_program(case), PID))
+        tr = run_program(case)
+        seq = case['enum']['seq']
+        end_event = any(s[0] == 'x' for s in seq) or (case['enum']['role'] == 'requester' and any(
+            s[0] == 'p' and s[1] in ('next_complete', 'error', 'error_bin') for s in seq))
+        vs = judge_trace(tr, end_event and case['enum']['k'] == 'rr' and case['enum']['role'] == 'requester')
+        return common.report_replay(PID, path, vs)
     if 'reconnect' in case:
         return common.report_replay(PID, path, reconnect_prop(case))
     return common.report_replay(PID, path, prop(case))
